@@ -83,6 +83,7 @@ let handle (ws : string list) : string = match ws with
   | "simpl" :: r -> let (items, _) = counted ty r in oty (C.make_simplified_union (ct ()) !fuel items)
   | ["chains"; n] -> if C.chains_ok (ct ()) (nat_of_int (int_of_string n)) then "true" else "false"
   | ["wfcontr"] -> if C.wf_contr (ct ()) then "true" else "false"
+  | "covt" :: r -> let (t, _) = ty r in if C.covt (ct ()) t then "true" else "false"
   | "litsok" :: r -> let (t, _) = ty r in if C.lits_ok (ct ()) t then "true" else "false"
   | "nocontr" :: r -> let (t, _) = ty r in if C.no_contr (ct ()) t then "true" else "false"
   | ["wfgen"] -> if C.wf_gen (ct ()) then "true" else "false"
